@@ -25,8 +25,11 @@ TIERS = {
 }
 RULE = ("each generated nest (depth <= 4, <= ~30 statements: do/catch/"
         "finally blocks, for/while/stream loops, generated functions, "
-        "error statements with values of every data kind, runtime faults, "
-        "return/break/continue, handlers and finally parts that raise) is "
+        "(also recursive ones), error statements with values of every data "
+        "kind, catch values that are literals or expressions over loop "
+        "variables/parameters, runtime faults, return (also of a call)/"
+        "break/continue also directly inside finally parts, blocks used as "
+        "values, handlers and finally parts that raise) is "
         "run fault-free, with EVERY single fault position (k-th stream "
         "write fails, k-th stream read fails or hits EOF), with sampled "
         "double faults and (thorough) with errors injected at arbitrary "
@@ -54,7 +57,8 @@ REQUIRED_PROBES = {
               "finally_raises", "handler_raises", "uncaught_reaches_top",
               "stream_loop_body_error", "fault_in_finally",
               "fault_in_handler", "return_of_call_raised_in_block",
-              "catch_value_expression", "control_statement_in_finally"],
+              "catch_value_expression", "control_statement_in_finally",
+              "recursive_call"],
 }
 REQUIRED_PROBES["thorough"] = REQUIRED_PROBES["quick"]
 
@@ -114,6 +118,9 @@ class NestGen:
                 return ["erre", ["v", ctx["loopvar"]]]
             if ctx.get("infn_def"):
                 return ["erre", rng.choice([["v", "p"], 1, 2])]
+        if rng.random() < 0.04:
+            # an error value that is not data: an output stream object
+            return ["erre", ["v", "stdout"]]
         if rng.random() < 0.6:
             return ["err", self.value()]
         return [rng.choice(["undef", "div0", "idx", "badcall"])]
@@ -163,6 +170,8 @@ class NestGen:
                 self.stmts(depth + 1, c3, rng.randrange(1, 3))
             self.nvar = getattr(self, "nvar", 0) + 1
             return ["forin", f"k_{self.nvar}", "stdin", body]
+        if r < 0.76 and ctx.get("selfname") and rng.random() < 0.5:
+            return self.self_call(ctx)
         if r < 0.76 and self.fns and not ctx.get("infn_def"):
             f = rng.choice(self.fns)
             return ["expr", ["call", f, [rng.randrange(3)]]]
@@ -172,12 +181,24 @@ class NestGen:
                 # while the enclosing blocks are still active
                 return ["ret", ["call", rng.choice(self.fns),
                                 [rng.randrange(3)]]]
+            if ctx.get("infn_def") and rng.random() < 0.6:
+                return ["ret", ["l", [["v", "p"], ["lit", self.value()]]]]
             return ["ret", ["lit", self.value()]]
         if r < 0.90 and ctx.get("loop") and not ctx.get("nocontrol"):
             return [rng.choice(["brk", "cont"])]
         if r < 0.95 and depth < 4:
             return self.defblk(depth + 1, ctx)
         return self.mark("m")
+
+    def self_call(self, ctx):
+        """the function calls itself with a smaller argument (bounded; at
+        most two call sites per function, or the work explodes)"""
+        self.nself = getattr(self, "nself", 0) + 1
+        if self.nself > 2:
+            return self.mark("m")
+        return ["if", ["op", ">", ["v", "p"], 0],
+                [["expr", ["call", ctx["selfname"],
+                           [["op", "-", ["v", "p"], 1]]]]], None]
 
     def block(self, depth, ctx, as_value=False, force=None):
         rng = self.rng
@@ -253,12 +274,17 @@ class NestGen:
             fin = [["mark", f"F{bid}"]]
             rr = rng.random()
             cfin = dict(ctx, nocontrol=True, nolp=True)
+            if ctx.get("selfname") and rng.random() < 0.35:
+                fin.append(self.self_call(ctx))
             if rr < 0.15:
                 fin.append(self.fail_stmt())          # finally raises
             elif rr < 0.3 and depth < 4:
                 fin.append(self.block(depth + 1, cfin))
             elif rr < 0.4:
                 fin.append(self.mark("f"))
+                if ctx.get("selfname"):
+                    # the finally part re-enters the function being left
+                    fin.append(self.self_call(ctx))
             elif rr < 0.55:
                 # a control statement directly inside the finally part: it
                 # must not swallow an error in flight nor end the part
@@ -284,13 +310,16 @@ def gen_case(rng, tier, k):
     prog = []
     for i in range(rng.choice([0, 1, 1, 2])):
         name = f"fn{i + 1}"
-        ctx = {"fn": True, "infn_def": True}
+        ctx = {"fn": True, "infn_def": True, "selfname": name}
+        g.nself = 0
         body = [g.block(1, ctx)]
         if rng.random() < 0.7:
             body.append(["if", ["op", "==", ["v", "p"], rng.randrange(3)],
                          [g.fail_stmt()], None])
             body.append(g.mark("fnm"))
-        body.append(["ret", ["lit", g.value()]])
+        # the result depends on the argument, so that a value leaking
+        # from one activation into another is visible
+        body.append(["ret", ["l", [["v", "p"], ["lit", g.value()]]]])
         prog.append(["deffn", name, ["p"], body])
         g.fns.append(name)
     ctx = {"fn": True}
@@ -344,6 +373,7 @@ def run_case(case, root):
             # the model
             m = lang.Machine(None, "A")
             m.session.vars["stdin"] = lang.Stream("stdin", "in")
+            m.session.vars["stdout"] = lang.Stream("stdout", "out")
             m.streams["stdin"] = {"lines": list(case["stdin"]), "pos": 0}
             try:
                 mout, mevents, mfired = model_run(m, stmts, m.session,
@@ -511,21 +541,21 @@ def history_invariants(static, events, nfired):
             if bid not in static["fin"]:
                 continue
             if t[0] == "E":
-                if pending.get(bid):
-                    anomalies.append(("finally-skipped",
-                                      f"block {bid} entered again before "
-                                      f"its finally ran"))
-                pending[bid] = True
+                # a counter, not a flag: with recursion the same block has
+                # several activations nested inside each other
+                pending[bid] = pending.get(bid, 0) + 1
             else:
                 if not pending.get(bid):
                     anomalies.append(("finally-twice",
                                       f"finally of block {bid} ran without "
                                       f"a matching entry (twice?)"))
-                pending[bid] = False
+                else:
+                    pending[bid] -= 1
     left = sorted(b for b, pnd in pending.items() if pnd)
     for b in left:
-        anomalies.append(("finally-skipped",
-                          f"finally of block {b} never ran"))
+        for _ in range(pending[b]):
+            anomalies.append(("finally-skipped",
+                              f"finally of block {b} never ran"))
     if len(anomalies) > nfired:
         return anomalies[0]
     return None
